@@ -99,7 +99,7 @@ class Interp:
         self.statics = {}
         self.solver = z3.Solver()
         self.solver.set('timeout', int(self.params.get('query_timeout_ms', 10000)))
-        self.model_cache = {}
+        self.model_cache = {}; self._models_len = len(models)
         self.call_cache = {}
         self.suffix_index = None
         self.enums = dict(BUILTIN_ENUMS)
@@ -760,6 +760,9 @@ class Interp:
                         args = list(args[0].items)       # rust-call ABI: arguments arrive as one tuple
                     return self.run_body(b, [selfarg] + args)
                 callee = callee.name
+            if len(self.models) != self._models_len:
+                # a check installed further models (possibly through another Interp of this process): cached dispatch is stale
+                self.model_cache.clear(); self._models_len = len(self.models)
             hit = self.model_cache.get(callee)
             if hit is None:
                 hit = []
